@@ -254,7 +254,7 @@ type c17Sender struct {
 }
 
 func c17NewSender(lg *c17Log, run int, cfg c17Cfg, conn net.Conn, park bool) *c17Sender {
-	tap := &c17Tap{Conn: conn, lg: lg, run: run, timeout: 4 * time.Second}
+	tap := &c17Tap{Conn: conn, lg: lg, run: run, timeout: 10 * time.Second}
 	mc := NewMConnectionWithConfig(tap, c17Descs(cfg), func(byte, []byte) {}, func(interface{}) {}, c17MConfig(cfg))
 	mc.SetLogger(log.NewNopLogger())
 	if err := mc.Start(); err != nil {
@@ -303,7 +303,7 @@ func c17Content(ch, n, ln int) []byte {
 }
 
 // barrier: everything written so far has been consumed by the peer's recvRoutine (it answers the
-// ping only after the packets before it), or the peer is down, or nothing happens for 4 s.
+// ping only after the packets before it), or the peer is down, or nothing happens for 10 s.
 func c17Barrier(s *c17Sender, nd *c17Node) string {
 	select {
 	case <-s.mc.pongTimeoutCh:
@@ -319,7 +319,7 @@ func c17Barrier(s *c17Sender, nd *c17Node) string {
 		return "pong"
 	case <-nd.stopped:
 		return "stopped"
-	case <-time.After(4 * time.Second):
+	case <-time.After(10 * time.Second):
 		if atomic.LoadInt32(&s.tap.failed) == 1 && !nd.mc.IsRunning() {
 			return "stopped"
 		}
@@ -482,8 +482,8 @@ func c17RunConcurrent(lg *c17Log, run int, rng *rand.Rand, unit int) {
 		}(k, lens, tries)
 	}
 	wg.Wait()
-	// wait (up to 6 s) until as many messages were handed over as were accepted
-	deadline := time.Now().Add(6 * time.Second)
+	// wait (up to 15 s) until as many messages were handed over as were accepted
+	deadline := time.Now().Add(15 * time.Second)
 	for time.Now().Before(deadline) && atomic.LoadInt32(&nd.ndlv) < atomic.LoadInt32(&accepted) && nd.mc.IsRunning() {
 		time.Sleep(200 * time.Microsecond)
 	}
@@ -544,7 +544,7 @@ func c17Encode(p c17Pkt) []byte {
 }
 
 func (r *c17Raw) write(b []byte) error {
-	r.conn.SetWriteDeadline(time.Now().Add(4 * time.Second))
+	r.conn.SetWriteDeadline(time.Now().Add(10 * time.Second))
 	_, err := r.conn.Write(b)
 	return err
 }
@@ -566,7 +566,7 @@ func (r *c17Raw) barrier(nd *c17Node) string {
 		return "stopped"
 	case <-r.eof:
 		return "stopped"
-	case <-time.After(4 * time.Second):
+	case <-time.After(10 * time.Second):
 		return "timeout"
 	}
 }
@@ -603,7 +603,7 @@ func (h *c17Honest) probe() string {
 	select {
 	case <-h.nd.probe:
 		return "ok"
-	case <-time.After(4 * time.Second):
+	case <-time.After(10 * time.Second):
 		return "timeout"
 	}
 }
